@@ -167,8 +167,7 @@ FASTOR_INLINE int _mm_prod_epi32(__m128i a) {
 }
 #endif
 
-#ifdef FASTOR_USE_HADD
-#ifdef FASTOR_SSSE3_IMPL
+#if defined(FASTOR_USE_HADD) && defined(FASTOR_SSE3_IMPL)
 FASTOR_INLINE float _mm_sum_ps(__m128 a) {
     // 10 OPS
     float sum32;
@@ -182,9 +181,7 @@ FASTOR_INLINE double _mm_sum_pd(__m128d a) {
     _mm_store_sd(&sum64,_mm_hadd_pd(a, a));
     return sum64;
 }
-#endif
-#else
-#ifdef FASTOR_SSE2_IMPL
+#elif defined(FASTOR_SSE2_IMPL)
 FASTOR_INLINE float _mm_sum_ps(__m128 a) {
     // 8 OPS
 #ifdef FASTOR_SSE3_IMPL
@@ -203,7 +200,9 @@ FASTOR_INLINE double _mm_sum_pd(__m128d a) {
     __m128d shuf  = _mm_castps_pd(shuftmp);
     return  _mm_cvtsd_f64(_mm_add_sd(a, shuf));
 }
+#endif
 
+#ifdef FASTOR_SSE2_IMPL
 FASTOR_INLINE float _mm_prod_ps(__m128 a) {
     // 12 OPS
 #ifdef FASTOR_SSE3_IMPL
@@ -222,7 +221,6 @@ FASTOR_INLINE double _mm_prod_pd(__m128d a) {
     __m128d shuf  = _mm_castps_pd(shuftmp);
     return  _mm_cvtsd_f64(_mm_mul_sd(a, shuf));
 }
-#endif
 #endif
 
 #ifdef FASTOR_AVX_IMPL
@@ -820,7 +818,7 @@ static FASTOR_INLINE __m128d _add_pd(__m128d a) {
 static FASTOR_INLINE __m128d _add_pd(__m256d a) {
     // IVY 12 OPS / HW 14 OPS
     __m128d sum_low = _add_pd(_mm256_castpd256_pd128(a));
-    __m128d sum_high = _add_pd(_mm256_extractf128_pd(sum_low, 0x1));
+    __m128d sum_high = _add_pd(_mm256_extractf128_pd(a, 0x1));
     return _mm_add_pd(sum_high, sum_low);
 }
 #endif
